@@ -1,5 +1,5 @@
 CONSTANTS Mags = {1} Pages <- PagesOne1 Rows = {1, 2} Cids = {1, 2} Nats = {0} Flofs = {1} Progs <- ProgsAll
-          HdrFaults = {} RowFaults <- RowPar PktFaults <- PktAll TripFaults <- TripAll MaxFaults = 1 MaxPk = 7 FaultFrom = {0}
+          HdrFaults = {} RowFaults <- RowPar PktFaults <- PktAll TripFaults <- TripAll FlofFaults <- NoFlofFaults MaxFaults = 1 MaxPk = 7 FaultFrom = {0}
 SPECIFICATION GSpec
 VIEW gview
 INVARIANT DumpT
